@@ -150,8 +150,8 @@ fn spawn_case(c: &Case, timeout: Duration) -> ChildResult {
 
 pub fn run(args: &Args) -> i32 {
     let rec = Recorder::new("C20", "exploration", args);
-    rec.set_rule("one evaluation = one call of create_raw_dict_from_source in a child process with a generated (source, size estimate, dictionary size); distinct_nontrivial = distinct (source shape, source length class, estimate class, dictionary size class) tuples that reached the sampling / epoch code (estimate >= 16)");
-    rec.assume("sources are kept <= 200 KiB because the current epoch loop is quadratic; a case is 'non terminating' only if it exceeds a flat CPU budget and does so again when re-run alone with four times the budget");
+    rec.set_rule("one evaluation = one call of create_raw_dict_from_source in a child process with a generated (source, size estimate, dictionary size); distinct_nontrivial = distinct (source shape, source length class, estimate class, dictionary size class, segmentation of the sample) tuples that reached the sampling / epoch code (estimate >= 16)");
+    rec.assume("sources are kept <= 200 KiB (plus a few of 512 KiB and more in the thorough tier) because the current epoch loop is quadratic; estimates go up to 4 MiB; a case is 'non terminating' only if it exceeds a flat CPU budget and does so again when re-run alone with four times the budget");
 
     let cpu_budget = 120.0f64;
     let mut cases: Vec<Case> = Vec::new();
@@ -190,6 +190,30 @@ pub fn run(args: &Args) -> i32 {
             _ => r.usize(0, 5000),
         };
         cases.push(Case { shape: r.below(5), case_seed: r.next(), source_len: len, estimate, dict_size: ds, chunk: *r.pick(&[0usize, 0, 1, 100, 4096]) });
+    }
+    // estimates of 512 KiB and more: the sample (estimate / 256 bytes) then spans several 2048 byte segments, the last of
+    // which can have any length, also one below a k-mer. The true source is kept just a few epochs longer than the
+    // sample (estimates may differ from the true length), which keeps these cases cheap.
+    let n_big = args.vol(260, 3000);
+    for j in 0..n_big as usize {
+        let tail = match j % 4 {
+            0 => (j / 4) % 40,           // 0..=39: around one k-mer
+            1 => 2048 - 1 - (j / 4) % 20, // just below a full segment
+            _ => r.usize(0, 2047),
+        };
+        let full_segments = 1 + r.usize(0, if args.thorough() { 7 } else { 3 });
+        let sample = full_segments * 2048 + tail;
+        let estimate = sample * 256 + r.usize(0, 255);
+        let len = sample + r.usize(1, 1500);
+        let ds = *r.pick(&[0usize, 15, 100, 2047, 2048, 4096, 10_000, 112_640]);
+        cases.push(Case { shape: r.below(5), case_seed: r.next(), source_len: len, estimate, dict_size: ds, chunk: *r.pick(&[0usize, 0, 1, 100, 4096]) });
+    }
+    if args.thorough() {
+        // true length and estimate both above 512 KiB (thousands of epochs each: few cases)
+        for j in 0..6usize {
+            let len = 524_288 + 256 * (3 + j * 401) + j;
+            cases.push(Case { shape: 2 + (j as u64 % 3), case_seed: r.next(), source_len: len, estimate: len, dict_size: 16_384, chunk: 0 });
+        }
     }
     rec.count("cases", cases.len() as u64);
 
@@ -262,7 +286,19 @@ pub fn run(args: &Args) -> i32 {
                 _ => ">=2048",
             };
             let est_class = if c.estimate == c.source_len { "exact" } else if c.estimate < c.source_len { "under" } else { "over" };
-            rec.distinct(fnv_str(&format!("{}|{len_class}|{est_class}|{ds_class}", c.shape)));
+            // how the sample is cut into segments
+            let sample = if c.estimate >= 2048 * 512 / 2 { c.estimate / 256 } else { 0 };
+            let seg_class = if sample <= 2048 {
+                "one_segment"
+            } else if sample % 2048 == 0 {
+                "full_segments"
+            } else if sample % 2048 < 16 {
+                rec.count("samples_with_last_segment_below_one_kmer", 1);
+                "last_segment<16"
+            } else {
+                "last_segment>=16"
+            };
+            rec.distinct(fnv_str(&format!("{}|{len_class}|{est_class}|{ds_class}|{seg_class}", c.shape)));
         }
         if i % 97 == 0 {
             rec.sample(json!({"source_len": c.source_len, "shape": c.shape, "estimate": c.estimate, "dict_size": c.dict_size, "written": out_len, "cpu_s": cpu}));
